@@ -143,6 +143,7 @@ HROk ==
                                        /\ reqs[r].at = conns[c].own /\ reqs[r].addr = conns[c].addr
                                        /\ reqs[r].dg = E.pay} IN
        /\ G("deliver", cands # {})
+       /\ G("oneconn", OpenConnsOf(conns[c].own, conns[c].addr) \subseteq {c})   \* THE connection of that source
        /\ reqs' = IF cands = {} THEN reqs
                   ELSE [reqs EXCEPT ![Min(cands)].st = IF @ = "open" THEN "delivered" ELSE "done"]
        /\ conns' = [conns EXCEPT ![c].last = now]
@@ -173,7 +174,10 @@ TCtxDone ==
             /\ TSame /\ UNCHANGED <<phase, hcfg, now, nextTick, conns, parked, npend>>
 
 \* ------------------------------------------------------ GoatOverHttp ----
-\* a new connection object is handed out only when none is open for that address
+\* A new connection object is handed out only when none is open for that address: exactly one
+\* announcement (OnConnect or NewConnection) per source while its connection lives - otherwise the
+\* source's envelopes are split over two RpcReadWriters and the one that is not registered is never
+\* failed by the idle timeout.
 TConn ==
   /\ Is("Conn")
   /\ E.n \notin DOMAIN conns
